@@ -249,8 +249,16 @@ def read_back(r):
             ux, uy = o.attrs["x"].attrs.get("unit"), o.attrs["y"].attrs.get("unit")
             if getattr(ux, "name", None) != "PERCENT" or getattr(uy, "name", None) != "PERCENT":
                 x = y = ("unit", getattr(ux, "name", ux))
+        # identities of the mutable objects the caption holds (caption, nodes, layouts, style dicts): two reads share none
+        ids = {id(c)}
+        for holder in [c] + list(c.attrs["nodes"]):
+            ids.add(id(holder))
+            for k_ in ("style", "layout_info", "content"):
+                v_ = holder.attrs.get(k_)
+                if isinstance(v_, (dict, list)) or (isinstance(v_, Stub) and v_.cls is not None):
+                    ids.add(id(v_))
         out.append({"start": c.attrs.get("start"), "end": c.attrs.get("end"), "lines": [norm(l) for l in lines],
-                    "italic": norm(ital, drop=True), "unbalanced": depth_bad or on, "x": x, "y": y})
+                    "italic": norm(ital, drop=True), "unbalanced": depth_bad or on, "x": x, "y": y, "ids": ids})
     return out
 
 
@@ -618,7 +626,7 @@ def explore_lengths(ctx, thorough):
 def explore_times(ctx, thorough):
     """C06: pop-on instants end to end"""
     E_ = Engine(ctx)
-    bad = {"start": [], "end": [], "final": [], "offset": []}
+    bad = {"start": [], "end": [], "final": [], "offset": [], "reuse": []}
     n = 0
     one = lambda t: [{"row": 15, "indent": 0, "tab": 0, "cells": [("txt", t)]}]      # noqa: E731
     for d, drop in itertools.product((1, 2), (False, True)):
@@ -779,6 +787,10 @@ def explore_times(ctx, thorough):
         if strip(again) != strip(fresh):
             bad["start"].append({"reader_reused_after": label, "second_read": str(strip(again))[:300],
                                  "a_fresh_reader_gives": str(strip(fresh))[:300]})
+        elif not isinstance(again, tuple) and not isinstance(fresh, tuple) and \
+                set().union(*[g["ids"] for g in again]) & set().union(*[g["ids"] for g in fresh]):
+            bad["reuse"].append({"reader_reused_after": label, "why": "the captions of two reads share a caption, node, layout or style "
+                                 "object: an edit of one caption set shows in the other"})
     return E_.fn, bad, n
 
 
